@@ -63,24 +63,40 @@ Definition alias_step (slot : nat -> nat) (name : nat) (v : nat) (regs : nat -> 
 From RM Require Gen.C13Sites.
 Open Scope Z_scope.
 
-Definition a64_memoize (name : bytes) : option bytes :=
-  match find (fun e : bytes * bytes => bytes_eqb name (fst e)) RM.Gen.C13Sites.arm64_alias_bytes with
+(* the tables of one architecture: REGISTERS, the alias arms of memoize_register, CALLEE_SAVED_REGS, the register width *)
+Record arch_tables := { at_regs : list bytes; at_aliases : list (bytes * bytes); at_saved : list bytes; at_bits : Z }.
+Definition a64_tables : arch_tables :=
+  {| at_regs := RM.Gen.C13Sites.arm64_register_bytes; at_aliases := RM.Gen.C13Sites.arm64_alias_bytes;
+     at_saved := RM.Gen.C13Sites.arm64_callee_saved_bytes; at_bits := 64 |}.
+Definition arm_tables : arch_tables :=
+  {| at_regs := RM.Gen.C13Sites.arm_register_bytes; at_aliases := RM.Gen.C13Sites.arm_alias_bytes;
+     at_saved := RM.Gen.C13Sites.arm_callee_saved_bytes; at_bits := 32 |}.
+
+Definition arch_memoize (t : arch_tables) (name : bytes) : option bytes :=
+  match find (fun e : bytes * bytes => bytes_eqb name (fst e)) (at_aliases t) with
   | Some e => Some (snd e)
-  | None => find (bytes_eqb name) RM.Gen.C13Sites.arm64_register_bytes
+  | None => find (bytes_eqb name) (at_regs t)
   end.
 Definition a64_regs := bytes -> option Z.            (* memoized name -> value, if valid *)
-(* a rule: Some v = the expression evaluates to v; None = it fails *)
-Definition a64_step (name : bytes) (rule : option Z) (regs : a64_regs) : a64_regs :=
-  match a64_memoize name with
+(* a rule: Some v = the expression evaluates to v; None = it fails.  A value that does not fit the register
+   (C::Register::try_from fails: u32 on arm) is rejected by set_caller_register, and the register is cleared like after a failure *)
+Definition arch_step (t : arch_tables) (name : bytes) (rule : option Z) (regs : a64_regs) : a64_regs :=
+  match arch_memoize t name with
   | None => regs
-  | Some r => fun x => if bytes_eqb x r then rule else regs x
+  | Some r => let v := match rule with Some x => if x <? 2 ^ at_bits t then Some x else None | None => None end in
+              fun x => if bytes_eqb x r then v else regs x
   end.
 (* [callee]: the callee's registers (all valid: frame 0) *)
-Definition a64_forwarded (callee : bytes -> Z) : a64_regs :=
-  fun x => if existsb (bytes_eqb x) RM.Gen.C13Sites.arm64_callee_saved_bytes then Some (callee x) else None.
-Definition a64_walk (iter : list (bytes * option Z) -> list (bytes * option Z)) (written : list (bytes * option Z))
+Definition arch_forwarded (t : arch_tables) (callee : bytes -> Z) : a64_regs :=
+  fun x => if existsb (bytes_eqb x) (at_saved t) then Some (callee x) else None.
+Definition arch_walk (t : arch_tables) (iter : list (bytes * option Z) -> list (bytes * option Z)) (written : list (bytes * option Z))
     (callee : bytes -> Z) : a64_regs :=
-  walk_cfi bytes_eqb bytes_ltb a64_step iter written (a64_forwarded callee).
+  walk_cfi bytes_eqb bytes_ltb (arch_step t) iter written (arch_forwarded t callee).
+Definition a64_memoize := arch_memoize a64_tables.
+Definition a64_step := arch_step a64_tables.
+Definition a64_forwarded := arch_forwarded a64_tables.
+Definition a64_walk := arch_walk a64_tables.
+Definition arm_walk := arch_walk arm_tables.
 
 (* ---- MultiSymbolProvider::stats (minidump-unwind/src/symbols/mod.rs): `for p in providers { result.extend(p.stats()) }`:
    the providers in Vec order, every provider's map in ITS iteration order ([iters]: one permutation per provider),
